@@ -351,6 +351,8 @@ theorem validateSupplement_ok {L : Ledger} {b : Block} (h : validateSupplement L
   split at h
   · rw [bind_eq_ok] at h; obtain ⟨_, hr, _⟩ := h; cases hr
   · rename_i hcond
+    split at h
+    · rw [bind_eq_ok] at h; obtain ⟨_, hr, _⟩ := h; cases hr
     rw [bind_eq_ok] at h; obtain ⟨u, hloop, h⟩ := h
     have h1 := forIn_unit_inv _ (fun t : Txn1 => SuppOk L t.supp) (by
       intro t s r hh
